@@ -1,4 +1,5 @@
 #!/bin/bash
+export VERIF_EVIDENCE_DIR=/verif/target/scratch-evidence  # never touch the committed evidence
 # Runs every seeded change under /verif/seeded against the quick check of the property it breaks.
 # Prints one line per change: CAUGHT (exit 1 + VIOLATION) or MISSED. /repo is restored after each.
 cd /verif
